@@ -309,6 +309,8 @@ func scenC05(r *Run) {
 		w.FaultPlan[fh] = f
 		r.nontrivial = true
 	}
+	// a slow network on top of the injected fault: up to 0.3 timeouts per delivery
+	r.S.LatTable = []time.Duration{0, 0, 0, time.Millisecond, 7 * time.Millisecond, 30 * time.Millisecond, timeout / 20, timeout / 8}
 	r.Describe("scenario", "c05")
 	r.Describe("api", []string{"jtp.Get", "client.FetchURL", "pub.New"}[api])
 	r.Describe("corpus", c05Corpus[ci].name)
